@@ -19,6 +19,9 @@ func TestMain(m *testing.M) { ev.Main(m, "C06") }
 
 type Case struct {
 	P *model.Project `json:"project"`
+	// PreCheck: every type object has been asked Check() alone (failing for want of the types it names)
+	// before the root registers it
+	PreCheck bool `json:"pre_check,omitempty"`
 }
 
 const recursionCode = 104
@@ -29,6 +32,7 @@ func oracle(c Case) *ev.Verdict {
 		return nil
 	}
 	tp := p.Text(nil)
+	tp.PreCheck = c.PreCheck
 	ev.Guard("graphs", c)
 	defer ev.Unguard()
 	b := sut.Build(tp)
@@ -382,7 +386,7 @@ func genCase(t *rapid.T) Case {
 			node.Add("chain", link)
 		}
 	}
-	return Case{P: p}
+	return Case{P: p, PreCheck: rapid.IntRange(0, 3).Draw(t, "precheck") == 0}
 }
 
 func classify(p *model.Project) (nontrivial bool, class string) {
